@@ -9,7 +9,7 @@ import (
 // at top level or nested; see Coverage()).
 func (w *World) All() []Obj {
 	var os []Obj
-	add := func(kind string, signed bool, v any) { os = append(os, Obj{Kind: kind, V: v, Signed: signed}) }
+	add := func(kind string, signed bool, v any) { os = append(os, Obj{Kind: kind, V: v, Signed: signed, NID: signed}) }
 
 	// ballot facts on their own
 	p := w.Point()
